@@ -377,9 +377,11 @@ class TestCaseExecutor(AbstractTestCaseExecutor):
         with ter.ExecutionRecorder(test_case):
             output_suppression_context = OutputSuppressionContext()
             return_queue: Queue[ExecutionResult] = Queue()
+            # The number of statements the executing thread has started so far.
+            started_statements = [0]
             thread = threading.Thread(
                 target=self._execute_test_case,
-                args=(test_case, output_suppression_context, return_queue),
+                args=(test_case, output_suppression_context, return_queue, started_statements),
                 daemon=True,
             )
             thread.start()
@@ -413,6 +415,12 @@ class TestCaseExecutor(AbstractTestCaseExecutor):
                     # allows the EA to continue with the search process.
                     _LOGGER.error("Bug in Pynguin!")
                     result = ExecutionResult(timeout=True)
+            if result.timeout:
+                # The execution did not get to report how many statements it executed,
+                # but they still count towards the statement-execution budget.
+                result.num_executed_statements = max(
+                    result.num_executed_statements, started_statements[0]
+                )
             self._after_remote_test_case_execution(test_case, result)
             self._subject_properties.validate_execution_trace(result.execution_trace)
             return result
@@ -428,6 +436,7 @@ class TestCaseExecutor(AbstractTestCaseExecutor):
         test_case: tc.TestCase,
         output_suppression_context: OutputSuppressionContext,
         result_queue: Queue,
+        started_statements: list[int],
     ) -> None:
         try:
             self._before_test_case_execution(test_case)
@@ -439,6 +448,7 @@ class TestCaseExecutor(AbstractTestCaseExecutor):
             ):
                 namespace = self._build_namespace()
                 for idx, statement in enumerate(test_case.statements()):
+                    started_statements[0] = idx + 1
                     node = self._before_statement_execution(statement, namespace)
                     exception = self._exec_statement(node, namespace)
                     self._after_statement_execution(statement, namespace, exception)
